@@ -15,6 +15,7 @@ pub fn dispatch(op: &str, f: &Fields) -> String {
         "encframe" => encframe(f),
         "wr" => wr(f),
         "structparse" => structparse(f),
+        "rt" => rt(f),
         _ => format!("harness-error unknown-op {}", op),
     }
 }
@@ -245,7 +246,15 @@ fn encframe(f: &Fields) -> String {
         drop(w);
         start = pre.len();
     }
-    format!("ok bytes={}", hex(&out[start..]))
+    // decode it again with the real stream reader (C01 at frame level)
+    let dec = {
+        let mut r = FlacStreamReader::new(Cursor::new(out[start..].to_vec()));
+        match r.read() {
+            Ok(fb) => format!("dec={} drate={} dch={} dbps={}", join(fb.samples.iter()), fb.sample_rate, fb.channels, fb.bits_per_sample),
+            Err(e) => format!("dec=ERR:{}", errclass(&e)),
+        }
+    };
+    format!("ok bytes={} {}", hex(&out[start..]), dec)
 }
 
 fn finish_file(res: Result<(), String>, file: &[u8]) -> String {
@@ -406,4 +415,23 @@ fn structparse(f: &Fields) -> String {
         rewritten,
         subs.join(";")
     )
+}
+
+/// write a file (as `wr`) and read it back through one reader front-end (as `decfile`)
+fn rt(f: &Fields) -> String {
+    let w = wr(f);
+    let (head, wf) = fields(&w);
+    if head != "ok" {
+        return format!("{} stage=write", w.split(" file=").next().unwrap_or(&w));
+    }
+    let file = get(&wf, "file").to_string();
+    let mut g = f.clone();
+    g.insert("bytes".to_string(), file.clone());
+    let d = decfile(&g);
+    let mut v = Fields::new();
+    v.insert("bytes".to_string(), file.clone());
+    v.insert("reader".to_string(), "verify".to_string());
+    let ver = decfile(&v);
+    let keep = num::<usize>(f, "keepfile", 0) != 0;
+    format!("{} verify={}{}", d, ver.replace(' ', "/"), if keep { format!(" file={}", file) } else { String::new() })
 }
